@@ -75,6 +75,51 @@ fn number_to_i64(n: KNumber) -> Option<i64> {
     }
 }
 
+thread_local! {
+    // The addresses of the lists and maps that are currently being deserialized,
+    // a container that contains itself would otherwise be visited endlessly by a recursive type.
+    // Tuples are registered as well (with a marker instead of an address),
+    // so that the length of the list is the current nesting depth.
+    static PARENT_CONTAINERS: std::cell::RefCell<Vec<usize>> = const { std::cell::RefCell::new(Vec::new()) };
+}
+
+// The deserializer is recursive, so the nesting of containers has to be limited to avoid
+// overflowing the stack. The limit is the one that is applied when serializing.
+const NESTING_LIMIT: usize = 127;
+
+// Registers a container as being deserialized until the guard is dropped
+struct ParentContainerGuard;
+
+impl ParentContainerGuard {
+    // Lists and maps are registered with their address, tuples (`None`) can't contain themselves
+    fn new(container_address: Option<usize>) -> Result<Self> {
+        PARENT_CONTAINERS.with_borrow_mut(|parents| {
+            // The marker differs from every (aligned) address and from the markers of other levels
+            let container_address = container_address.unwrap_or(parents.len() * 2 + 1);
+            if parents.contains(&container_address) {
+                Err(Error::Message(
+                    "deserialization isn't supported for a container that contains itself".into(),
+                ))
+            } else if parents.len() >= NESTING_LIMIT {
+                Err(Error::Message(format!(
+                    "deserialization isn't supported for containers that are nested more than {NESTING_LIMIT} levels deep",
+                )))
+            } else {
+                parents.push(container_address);
+                Ok(Self)
+            }
+        })
+    }
+}
+
+impl Drop for ParentContainerGuard {
+    fn drop(&mut self) {
+        PARENT_CONTAINERS.with_borrow_mut(|parents| {
+            parents.pop();
+        });
+    }
+}
+
 pub struct Deserializer(KValue);
 
 impl Deserializer {
@@ -105,8 +150,8 @@ impl<'de> de::Deserializer<'de> for Deserializer {
                 KNumber::F64(f) => visitor.visit_f64(f),
                 KNumber::I64(i) => visitor.visit_i64(i),
             },
-            KValue::List(l) => visit_value_slice(&l.data(), visitor),
-            KValue::Tuple(t) => visit_value_slice(&t, visitor),
+            KValue::List(l) => visit_list(&l, visitor),
+            KValue::Tuple(t) => visit_value_slice(&t, None, visitor),
             KValue::Map(m) => visit_map_entries(m, visitor),
             KValue::Str(s) => visitor.visit_str(&s),
             other => unsupported_error("deserializable value", &other),
@@ -233,8 +278,8 @@ impl<'de> de::Deserializer<'de> for Deserializer {
         V: de::Visitor<'de>,
     {
         match self.0 {
-            KValue::Tuple(t) => visit_value_slice(&t, visitor),
-            KValue::List(l) => visit_value_slice(&l.data(), visitor),
+            KValue::Tuple(t) => visit_value_slice(&t, None, visitor),
+            KValue::List(l) => visit_list(&l, visitor),
             other => unsupported_error("tuple or list", &other),
         }
     }
@@ -278,8 +323,8 @@ impl<'de> de::Deserializer<'de> for Deserializer {
         V: de::Visitor<'de>,
     {
         match self.0 {
-            KValue::Tuple(t) => visit_value_slice(&t, visitor),
-            KValue::List(l) => visit_value_slice(&l.data(), visitor),
+            KValue::Tuple(t) => visit_value_slice(&t, None, visitor),
+            KValue::List(l) => visit_list(&l, visitor),
             KValue::Map(m) => visit_map_entries(m, visitor),
             other => unsupported_error("tuple, list, or map", &other),
         }
@@ -366,10 +411,23 @@ fn values_to_bytes(values: &[KValue]) -> Result<Vec<u8>> {
         .collect::<Result<_>>()
 }
 
-fn visit_value_slice<'slice, 'de, V>(slice: &'slice [KValue], visitor: V) -> Result<V::Value>
+fn visit_list<'de, V>(list: &koto_runtime::KList, visitor: V) -> Result<V::Value>
 where
     V: de::Visitor<'de>,
 {
+    let data = list.data();
+    visit_value_slice(&data, Some(&*data as *const _ as usize), visitor)
+}
+
+fn visit_value_slice<'slice, 'de, V>(
+    slice: &'slice [KValue],
+    container_address: Option<usize>,
+    visitor: V,
+) -> Result<V::Value>
+where
+    V: de::Visitor<'de>,
+{
+    let _guard = ParentContainerGuard::new(container_address)?;
     let len = slice.len();
     let mut deserializer = ValueSliceDeserializer::new(slice);
     let seq = visitor.visit_seq(&mut deserializer)?;
@@ -425,6 +483,7 @@ fn visit_map_entries<'de, V>(map: KMap, visitor: V) -> Result<V::Value>
 where
     V: de::Visitor<'de>,
 {
+    let _guard = ParentContainerGuard::new(Some(&*map.data() as *const _ as usize))?;
     let len = map.data().len();
     let mut deserializer = MapDeserializer::new(map);
     let seq = visitor.visit_map(&mut deserializer)?;
